@@ -100,7 +100,10 @@ func c05Spawn(p *Program, r *Report) {
 	for n := range ctor {
 		ctorCall = g.Nodes[n].(*ssa.Call)
 	}
-	reg := nodesWhere(g, func(in ssa.Instruction) bool { c := callOf(in); return c != nil && c.StaticCallee() == lc.AppendRegistry })
+	reg := nodesWhere(g, func(in ssa.Instruction) bool {
+		c := callOf(in)
+		return c != nil && c.StaticCallee() == lc.AppendRegistry
+	})
 	tells := map[int]bool{}
 	launch := map[int]bool{}
 	for _, ts := range p.tellSites(ao) {
@@ -373,8 +376,14 @@ func c05Restart(p *Program, r *Report) {
 	good = len(actorStore) > 0 && len(provNil) > 0 && !anyIn(g.Reach(g.entry(), actorStore, mergeEdges(av, provNil)), g.Exits)
 	r.Check(good, "provider supplies a fresh actor instance", firstPos(g, actorStore), "with a provider configured every restarting path stores Provider.Provide() into the context's actor field")
 	// behaviour stack reset: Clear then Push(actor.OnReceive) with actor loaded after the provider store
-	clear := nodesWhere(g, func(in ssa.Instruction) bool { c := callOf(in); return c != nil && c.StaticCallee() != nil && c.StaticCallee().Name() == "Clear" })
-	push := nodesWhere(g, func(in ssa.Instruction) bool { c := callOf(in); return c != nil && c.StaticCallee() != nil && c.StaticCallee().Name() == "Push" })
+	clear := nodesWhere(g, func(in ssa.Instruction) bool {
+		c := callOf(in)
+		return c != nil && c.StaticCallee() != nil && c.StaticCallee().Name() == "Clear"
+	})
+	push := nodesWhere(g, func(in ssa.Instruction) bool {
+		c := callOf(in)
+		return c != nil && c.StaticCallee() != nil && c.StaticCallee().Name() == "Push"
+	})
 	good = len(clear) > 0 && len(push) == 1
 	for pn := range push {
 		c := callOf(g.Nodes[pn])
